@@ -35,7 +35,8 @@ MANIFEST = dict(
           "files (200 entries, 64 KiB binary bodies) go through the same trace spec. The alphabets deliberately cross the readers' buffer sizes: "
           "request lines, tags and header values of 4-5 KB in every exhaustive pool and up to 70 000 bytes in the random files (uri: below bufio.Scanner's "
           "64 KiB limit), bodies at 4096/8192/65536 +-1, tags with runs of blanks, tabs and a leading blank, odd URI characters; half of the layouts are "
-          "read with preload. Right level: the property quantifies over file contents and "
+          "read with preload; pairs of different entries on both sides of every allocation threshold (4 KiB, 64 KiB, 1 MiB) are alive at once, and "
+          "every delivery is verified only after later entries have been acquired (a delivered request stays what it was). Right level: the property quantifies over file contents and "
           "layouts, which is a finite case function TLC can enumerate completely for small files; the unit tests have one fixture per decoder."),
     note=("Small-scope exhaustive (<= 4 items over pools of 3-4 entries / 4 header lines per format) + sampled large scope. Trusted: the renderers "
           "(harness/cmd/vdrive/ammofmt_render.go, written against docs/eng/providers.md), the projection, TLC. Provider option `headers` left empty "
@@ -68,7 +69,9 @@ def run(tier, v):
         args = ["ammofmt", "-in", ",".join(batch), "-out", trace]
         if i == 0:
             args += ["-random", str(nrand), "-mode", "c07"]
-        vlib.run_driver(b, args, timeout=3000)
+        if not al.run_cases(v, b, args):
+            bad += 1
+            continue
         rows, ts, nb = al.validate(v, trace, sig, "real provider diverges from AmmoFormats.Expected",
                                    heap="16g" if thorough else "6g", workers=16 if thorough else 8, timeout=3000, case_files=batch)
         tstates += ts
@@ -80,12 +83,13 @@ def run(tier, v):
                                                "deliveries": sum(len(r["obs"]["deliv"]) for r in rows),
                                                "max_entries": max(sum(1 for it in r["items"] if it["k"] == "E") for r in rows)})
         del rows
+    detail.setdefault("cases", [])
     total = sum(c["cases"] for c in detail["cases"])
     from_tlc = sum(c["from_tlc"] for c in detail["cases"])
     cov = {
         "states": states, "transitions": trans,
         "traces_validated_against_impl": total,
-        "samples": rows_all[:6],
+        "samples": rows_all[:6] or [{"driver": "crashed, see the violation"}],
         "exhaustive": True,
         "evaluations": total,
         "distinct_nontrivial": from_tlc,
